@@ -20,6 +20,18 @@ for run in sorted(glob.glob('/tmp/seed-out/*/m*/demo/RUN.md')):
     for b in glob.glob(dst+"/demo/*.bin"): os.remove(b)
     notes=f"/tmp/seed-out/{pid}/{mk}/notes.md"
     if os.path.exists(notes): shutil.copy(notes,dst+"/notes.md")
+    dj=os.path.join(demo,'demo.json')
+    if os.path.exists(dj):
+        try:
+            d=json.load(open(dj))
+            meta={"id":sid,"property":pid,"title":props[pid]['title'],"kind":d.get("kind","gotest"),"files":d.get("files",[]),"cwd":d.get("cwd",""),
+                  "commands":d.get("commands",["./run.sh"]) if d.get("kind")=="gotest" else ["./run.sh"],
+                  "source":"written by an independent sub-agent that saw only the property text and a scratch worktree"}
+            json.dump(meta,open(dst+"/meta.json","w"),indent=1)
+            print(sid,meta["kind"],meta["files"],meta["commands"][:2],meta["cwd"])
+            continue
+        except Exception as e:
+            print(sid,"demo.json unusable:",e)
     txt=open(run).read()
     lines=[re.sub(r'^\$ ','',l.strip()) for l in txt.split('\n')]
     cps={}
